@@ -55,7 +55,7 @@ reg('C12', [('verus', 'jitter')], level='proof', trusted_base=TB_COMMON + TB_JIT
     assumptions=['number of timer readings: the postconditions quantify exactly the readings that can influence the state; the count itself is decided by Kani harnesses on the real code (thorough tier)'])
 reg('C13', [('verus', 'jitter')], level='proof', trusted_base=TB_COMMON + TB_JIT,
     explanation='test_timer carries `exists log. tt_post(log, r)`: Ok(r) only if no failure condition holds on the probe log, 1<=r<=128 and r*bitlen(mean)>=128; Err(e) only if cond(e) holds')
-reg('C14', [('verus', 'xoshiro'), ('verus', 'xorshift'), ('verus', 'jitter')], level='proof', trusted_base=TB_COMMON + TB_RC + TB_JIT,
+reg('C14', [('verus', 'xoshiro'), ('verus', 'xorshift'), ('verus', 'jitter'), ('verus', 'hc128')], level='proof', trusted_base=TB_COMMON + TB_RC + TB_JIT,
     explanation='Verus built-in obligations (overflow, index, shift, division, callee preconditions incl. panics) in every function under contract; public functions require only the type invariant',
     assumptions=['Debug/serde formatting are not claimed panic-free'])
 reg('C16', [('verus', 'jitter')], level='proof', trusted_base=TB_COMMON + TB_JIT,
@@ -63,3 +63,7 @@ reg('C16', [('verus', 'jitter')], level='proof', trusted_base=TB_COMMON + TB_JIT
 reg('C15', [('verus', 'jitter')], level='proof', trusted_base=TB_COMMON + TB_JIT + ['the 64 columns of the inverse of stir\'s linear part are produced by tools/stir_inverse.py on every run; the verifier re-evaluates them (64 by(compute) evaluations), so they are not trusted'],
     explanation='lemmas over the spec functions the code is proved equal to: lfsr64 bijective in the pool (explicit inverse), injective in the time value (bit-peeling induction), rotl 7 a permutation, stir injective (affine-linearity + explicit inverse on a basis); code-level obligations jitter.lfsr.*, jitter.stir_pool.*, jitter.measure_jitter.spec tie them to the real functions',
     assumptions=['one-to-one on the finite set of 2^64 pool values implies onto (pigeonhole) for the stir step; for the LFSR fold the inverse is explicit'])
+
+reg('C02', [('verus', 'hc128')], level='proof', trusted_base=TB_COMMON + ['T5 assumed: le::read_u32_into (LE words); BlockRng word delivery is dependency code (Kani, thorough)'],
+    explanation='step_p/step_q against Wu\'s update/output functions, generate == 16 keystream steps at the current counter (all 32 unrolled calls, both phases, counter wrap), sixteen_steps/init == key/IV expansion W followed by 1024 initialisation steps, from_seed == init of the LE words; bridge lemma code association order == Wu\'s g1/g2/h1/h2',
+    assumptions=['Hc128Rng forwards to rand_core::block::BlockRng: words of each 16-word block are handed out in order (Kani harness on the real rand_core, thorough tier)'])
